@@ -324,15 +324,18 @@ theorem laguerre_der [CharZero F] (al x₀ : F) (n : ℕ) : lagDer n al x₀ = e
 theorem laguerre_der_poly [CharZero F] (al : F) (n : ℕ) : derivative (lagPoly al (n+1)) = -lagPoly (al + 1) n :=
   lag_der_poly al n
 
-/-- **`compute_z_zprime_Qbfs`**: for every coefficient list (one term included) and every point the routine returns
-(sag polynomial at `u₀`, its derivative at `u₀`), and the sag polynomial is `u²(1-u²) Σ b_n P_n(u²)` -/
+/-- **`compute_z_zprime_Qbfs`** (over the changed-basis coefficients `bs`; the link `Σ b_n P_n = Σ c_n Q_n` is C10's `change_of_basis_qbfs`).
+`qbfsSagPoly bs` is by definition the routine's own first output computed on the indeterminate, so the first conjunct only says that
+evaluation commutes with the routine; the CONTENT is the second conjunct (the second output is the derivative of that polynomial,
+every list incl. one term, every point) together with the third (that polynomial is `u²(1-u²) Σ b_n P_n(u²)`) -/
 theorem qbfs_sag_slope (bs : List F) (u₀ : F) :
     (zzQbfsB bs u₀).1 = eval u₀ (qbfsSagPoly bs) ∧ (zzQbfsB bs u₀).2 = eval u₀ (derivative (qbfsSagPoly bs)) ∧
     (zzQbfsB bs u₀).1 = (u₀ * u₀ * (1 - u₀ * u₀)) * wsum (qbfsFam.p (u₀ * u₀)) 0 bs :=
   ⟨(zzQbfsB_eval bs u₀).1, (zzQbfsB_eval bs u₀).2, zzQbfsB_sag bs u₀⟩
 
-/-- **`compute_z_zprime_Qcon`** (stated for any family; the source uses Jacobi `(0, 4)`): returns
-(sag polynomial at `u₀`, its derivative at `u₀`); for Jacobi the sag is `u⁴ Σ c_n P_n(2u² - 1)` -/
+/-- **`compute_z_zprime_Qcon`** (stated for any family; the source uses Jacobi `(0, 4)`).  As for Qbfs, `qconSagPoly` is the routine's own
+first output on the indeterminate: the content is the second conjunct (second output = derivative of that polynomial) together with
+`qcon_sag_is_sum` (that polynomial is `u⁴ Σ c_n P_n(2u² - 1)`) -/
 theorem qcon_sag_slope (G : Fam F) (cs : List F) (u₀ : F) :
     (zzQconG G cs u₀).1 = eval u₀ (qconSagPoly G cs) ∧ (zzQconG G cs u₀).2 = eval u₀ (derivative (qconSagPoly G cs)) :=
   zzQconG_eval G cs u₀
@@ -398,7 +401,51 @@ theorem q2d_and_der_azimuthal_correct (zf sf bf : ℝ → ℝ) (x z' s' b' : ℝ
     HasDerivAt (fun q => zf q * sf q + bf q) (q2dAndDer (sf x) (zf x) zr z' sr s' (bf x) br b' Rn).2.2 x :=
   q2d_and_der_t_correct zf sf bf x z' s' b' hz hs hb zr sr br Rn
 
-/-- **Zernike azimuthal derivative with the real `cos`, `sin`** -/
+/-- **`zernike_nm_der`, azimuthal output** (the statement about the routine itself): the second component of `zernikeDer`, fed
+with the real `cos(|m|t)`, `sin(|m|t)`, is `∂/∂t` of `znorm · r^{|m|} P(2r²-1) · (cos(mt) | sin(|m|t) | 1)`; covers the sign and the
+`|m|` / `m` choice of both branches, every `(n, m)`, every point -/
+theorem zernike_der_azimuthal_correct [DecidableEq ℝ] (n : ℕ) (m : ℤ) (r zn t : ℝ) :
+    HasDerivAt
+      (fun q => zn * zernikeRadial n m.natAbs r *
+        (if m = 0 then 1 else if m < 0 then sin ((m.natAbs : ℝ) * q) else cos ((m.natAbs : ℝ) * q)))
+      (zernikeDer n m r (cos ((m.natAbs : ℝ) * t)) (sin ((m.natAbs : ℝ) * t)) zn).2 t := zernikeDer_dt_real n m r zn t
+
+/-- **`Q2d_and_der`, composed (radial)**: the surface theorems above plugged into the product rule — for ANY departure `zf`
+differentiable in `u = ρ/Rn` (hypothesis: that is what `compute_z_zprime_Q2d` supplies, see `q2d_slopes_list_level`), the returned
+radial slope is the `ρ`-derivative of the returned sag `zf(ρ/Rn) · σ⁻¹ + z_base` -/
+theorem q2d_and_der_composed_radial (c kappa s ct ctp Rn r z' zt st bt : ℝ) (zf : ℝ → ℝ) (hR : Rn ≠ 0)
+    (hz : HasDerivAt zf z' (r / Rn)) (h : 0 < phiRad c kappa (oacAgg r s ct)) (hL : 0 < psiRad c kappa (oacAgg r s ct)) :
+    HasDerivAt
+      (fun q => zf (q / Rn) * (√(psiRad c kappa (oacAgg q s ct)) / √(phiRad c kappa (oacAgg q s ct)))
+        + conicSag c (oacAgg q s ct) (√(phiRad c kappa (oacAgg q s ct))))
+      (q2dAndDer (√(psiRad c kappa (oacAgg r s ct)) / √(phiRad c kappa (oacAgg r s ct))) (zf (r / Rn)) z' zt
+        (oacSigmaInvDer c kappa r s ct ctp (√(phiRad c kappa (oacAgg r s ct))) (√(psiRad c kappa (oacAgg r s ct)))).1 st
+        (conicSag c (oacAgg r s ct) (√(phiRad c kappa (oacAgg r s ct))))
+        (oacDer c kappa r s ct ctp (√(phiRad c kappa (oacAgg r s ct)))).1 bt Rn).2.1 r :=
+  q2d_and_der_composed_r c kappa s ct ctp Rn r z' zt st bt zf hR hz h hL
+
+/-- **`Q2d_and_der`, composed (azimuthal)**, section shifted along x and along y -/
+theorem q2d_and_der_composed_azimuthal (c kappa s r Rn t z' zr sr br : ℝ) (zf : ℝ → ℝ) (hz : HasDerivAt zf z' t) :
+    (0 < phiRad c kappa (oacAgg r s (cos t)) → 0 < psiRad c kappa (oacAgg r s (cos t)) →
+      HasDerivAt
+        (fun q => zf q * (√(psiRad c kappa (oacAgg r s (cos q))) / √(phiRad c kappa (oacAgg r s (cos q))))
+          + conicSag c (oacAgg r s (cos q)) (√(phiRad c kappa (oacAgg r s (cos q)))))
+        (q2dAndDer (√(psiRad c kappa (oacAgg r s (cos t))) / √(phiRad c kappa (oacAgg r s (cos t)))) (zf t) zr z' sr
+          (oacSigmaInvDer c kappa r s (cos t) (-sin t) (√(phiRad c kappa (oacAgg r s (cos t)))) (√(psiRad c kappa (oacAgg r s (cos t))))).2
+          (conicSag c (oacAgg r s (cos t)) (√(phiRad c kappa (oacAgg r s (cos t))))) br
+          (oacDer c kappa r s (cos t) (-sin t) (√(phiRad c kappa (oacAgg r s (cos t))))).2 Rn).2.2 t) ∧
+    (0 < phiRad c kappa (oacAgg r s (sin t)) → 0 < psiRad c kappa (oacAgg r s (sin t)) →
+      HasDerivAt
+        (fun q => zf q * (√(psiRad c kappa (oacAgg r s (sin q))) / √(phiRad c kappa (oacAgg r s (sin q))))
+          + conicSag c (oacAgg r s (sin q)) (√(phiRad c kappa (oacAgg r s (sin q)))))
+        (q2dAndDer (√(psiRad c kappa (oacAgg r s (sin t))) / √(phiRad c kappa (oacAgg r s (sin t)))) (zf t) zr z' sr
+          (oacSigmaInvDer c kappa r s (sin t) (cos t) (√(phiRad c kappa (oacAgg r s (sin t)))) (√(psiRad c kappa (oacAgg r s (sin t))))).2
+          (conicSag c (oacAgg r s (sin t)) (√(phiRad c kappa (oacAgg r s (sin t))))) br
+          (oacDer c kappa r s (sin t) (cos t) (√(phiRad c kappa (oacAgg r s (sin t))))).2 Rn).2.2 t) :=
+  ⟨fun h hL => q2d_and_der_composed_t_cos c kappa s r Rn t z' zr sr br zf hz h hL,
+   fun h hL => q2d_and_der_composed_t_sin c kappa s r Rn t z' zr sr br zf hz h hL⟩
+
+/-- (a calculus fact used above, not a statement about `zernikeDer`) -/
 theorem zernike_azimuthal_real (rad m t : ℝ) :
     HasDerivAt (fun q => rad * cos (m * q)) (rad * (-m * sin (m * t))) t ∧
     HasDerivAt (fun q => rad * sin (m * q)) (rad * (m * cos (m * t))) t := zernike_dt_real rad m t
@@ -434,6 +481,42 @@ theorem q2d_azimuthal_slope (d : Der R) (hh : d.D (Num.ofFrac 1 2 : R) = 0) (h25
     (hda : ∀ t ∈ da, d.D t = 0) (hdb : ∀ t ∈ db, d.D t = 0) :
     (q2dTermB G m c s da db u).2.2 = d.D (q2dTermB G m c s da db u).1 :=
   q2dTermB_dt d hh h25 G hG m c s u hc hs hu da db hda hdb
+
+/-- **2D-Q, list level** (`compute_z_zprime_Q2d` without its `m = 0` part): the radial and azimuthal slopes accumulated over ALL
+azimuthal orders are `∂/∂u` resp. `∂/∂t` of the accumulated sag, for every combination of present / absent / empty cosine and sine
+lists and unequal lengths.  Hypotheses: the two derivations treat the numerical constants, the family coefficients and the
+changed-basis coefficients as constants; `∂u u = 1`, `∂u cos = ∂u sin = 0`; `∂t u = 0`, `∂t cos(mt) = -m sin(mt)`, `∂t sin(mt) = m cos(mt)`. -/
+theorem q2d_slopes_list_level (dr dt : Der R)
+    (hh : dr.D (Num.ofFrac 1 2 : R) = 0) (h25 : dr.D (Num.ofFrac 2 5 : R) = 0)
+    (hh' : dt.D (Num.ofFrac 1 2 : R) = 0) (h25' : dt.D (Num.ofFrac 2 5 : R) = 0)
+    (fq gq : Nat → Nat → R) (cosm sinm : Nat → R) (u : R)
+    (hG : ∀ m, ConstFam dr (q2dFam (K := R) m)) (hG' : ∀ m, ConstFam dt (q2dFam (K := R) m))
+    (hu : dr.D u = 1) (hc : ∀ m, dr.D (cosm m) = 0) (hs : ∀ m, dr.D (sinm m) = 0)
+    (hu' : dt.D u = 0) (hc' : ∀ m, dt.D (cosm m) = -(m : R) * sinm m) (hs' : ∀ m, dt.D (sinm m) = (m : R) * cosm m)
+    (hcob : ∀ (m : Nat) (l : List R), ∀ t ∈ cobQ2d (fq m) (gq m) 0 l, dr.D t = 0 ∧ dt.D t = 0)
+    (ams bms : List (List R)) :
+    (q2dSlopeFrom fq gq cosm sinm u 1 ams bms).1 = dr.D (q2dSagFrom fq gq cosm sinm u 1 ams bms) ∧
+    (q2dSlopeFrom fq gq cosm sinm u 1 ams bms).2 = dt.D (q2dSagFrom fq gq cosm sinm u 1 ams bms) :=
+  q2dSlopeFrom_correct dr dt hh h25 hh' h25' fq gq cosm sinm u hG hG' hu hc hs hu' hc' hs' hcob ams bms 1 (le_refl 1)
+
+/-- **`compute_z_zprime_Q2d`, radial slope, whole routine** (`m = 0` Qbfs part included) -/
+theorem zzQ2d_radial_correct (dr dt : Der R)
+    (hh : dr.D (Num.ofFrac 1 2 : R) = 0) (h25 : dr.D (Num.ofFrac 2 5 : R) = 0)
+    (hh' : dt.D (Num.ofFrac 1 2 : R) = 0) (h25' : dt.D (Num.ofFrac 2 5 : R) = 0)
+    (f g h : Nat → R) (fq gq : Nat → Nat → R) (cosm sinm : Nat → R) (u : R)
+    (hG : ∀ m, ConstFam dr (q2dFam (K := R) m)) (hG' : ∀ m, ConstFam dt (q2dFam (K := R) m))
+    (hu : dr.D u = 1) (hc : ∀ m, dr.D (cosm m) = 0) (hs : ∀ m, dr.D (sinm m) = 0)
+    (hu' : dt.D u = 0) (hc' : ∀ m, dt.D (cosm m) = -(m : R) * sinm m) (hs' : ∀ m, dt.D (sinm m) = (m : R) * cosm m)
+    (hcob : ∀ (m : Nat) (l : List R), ∀ t ∈ cobQ2d (fq m) (gq m) 0 l, dr.D t = 0 ∧ dt.D t = 0)
+    (cm0 : List R) (hb : ∀ t ∈ cobQbfs f g h 0 cm0, dr.D t = 0) (ams bms : List (List R)) :
+    (zzQ2d f g h fq gq cosm sinm cm0 ams bms u).2.1 = dr.D (zzQ2d f g h fq gq cosm sinm cm0 ams bms u).1 := by
+  obtain ⟨h1, _⟩ := q2d_slopes_list_level dr dt hh h25 hh' h25' fq gq cosm sinm u hG hG' hu hc hs hu' hc' hs' hcob ams bms
+  simp only [zzQ2d]
+  rw [h1, dr.map_add]
+  congr 1
+  split
+  · simp [dr.map_zero]
+  · simp only [zzQbfs]; exact zzQbfsB_slope dr u hu _ hb
 
 /-- **Zernike radial derivative, assembly** (given that `jacobi_der` is the derivative of `jacobi`, see
 `jacobi_der_full`): `d/dr [r^k R(2r²-1)] = R·k r^{k-1} + r^k·4r R'` -/
